@@ -360,7 +360,8 @@ class Conic(Quadric):
         y = Point(c1 * a1 - c2 * a2, copy=False)
 
         conic = cls.from_points(a, b, c, d, x)
-        if np.all(np.isreal(conic.array)):
+        # x is the zero vector when both pairs of opposite sides meet the tangent in the same point: then y is the point of contact
+        if np.all(np.isreal(conic.array)) and not conic.is_zero():
             return conic
         return cls.from_points(a, b, c, d, y)
 
